@@ -58,6 +58,15 @@ partial def treeOf : Sexp → Option M
     pure (.node (← nats? bs) (← optNat d) (← namesOf ns) kids)
   | _ => none
 
+partial def pvOf : Sexp → Option PV
+  | .list [.atom "l", .list sh, d] => do pure (.leaf (← nats? sh) (← asNat? d))
+  | .list (.atom "d" :: kvs) => do
+    let l ← kvs.mapM fun (kv : Sexp) => match kv with
+      | Sexp.list [Sexp.atom k, v] => do pure ((← unhex k), (← pvOf v))
+      | _ => none
+    pure (.dict l)
+  | _ => none
+
 def namesTo : Option DimNames → Sexp
   | none => .atom "none"
   | some l => .list (l.map fun n => match n with
@@ -93,6 +102,11 @@ def opOf : Sexp → Option Op
       match (← namesOf ns) with
       | some l => pure (.refineNames (← pathOf h) l)
       | none => none
+  | .list (.atom "update" :: h :: items) => do
+      let its ← items.mapM fun (it : Sexp) => match it with
+        | Sexp.list [k, v] => do pure ((← pathOf k), (← pvOf v))
+        | _ => none
+      pure (.update (← pathOf h) its)
   | _ => none
 
 end C01D
